@@ -230,6 +230,9 @@ func runC11(r *Run) {
 	r.rule("C11.R5", "the ok result of big.Int.SetString / NewIntFromString is checked before the value is used on unrecovered paths", 2)
 	r.rule("C11.R6", "arithmetic that panics on a negative result in block processing stays non-negative by construction: the fee-distribution remainder (C17.R3/R4 obligations) and the slashed-undelegation clamp (C04.R2)", 8)
 	r.rule("C11.R7", "every index/slice expression on an unrecovered path whose bounds check the Go compiler cannot eliminate is dominated by a length test, is of a safe shape (range index, sort comparator, parsed-n, split-first), or is audited", 40)
+	r.rule("C11.R8", "no write to an entry of a nil map: map fields of the repository's structs that are written by index are initialised at every construction site (or by the writer itself); an inner map is created under a presence test before it is written", 8)
+	c11MapFields(r)
+	c11NestedMapWrites(r)
 	c11Bounds(r)
 	if r.Prop == "C11" {
 		sub := NewRun(r.W, "C17", r.Tier, r.Seed)
